@@ -66,3 +66,60 @@ Theorem C08_fallback_unknown_offset : forall W h t pid off,
   ~ In off (map p_id (emitted h)) ->
   snd (step W t (ORestore pid off) (final W h)) = Some None.
 Proof. exact fallback_unknown_offset. Qed.
+
+(** Liveness: times non-decreasing along the history, the reconnection within the window of the
+    session last persisted under [pid], and the offset packet itself not older than the window:
+    the session IS recovered (with that session's sid and rooms). *)
+Theorem C08_recovers_in_window : forall W h t t0 pid off s td p,
+  times_sorted t0 (h ++ [(t, ORestore pid off)]) = true ->
+  last_persist pid h None = Some (s, td) -> t <= td + W ->
+  In p (emitted h) -> p_id p = off -> t <= p_at p + W ->
+  exists ms, snd (step W t (ORestore pid off) (final W h)) = Some (Some (s, ms)).
+Proof. exact recovers_in_window. Qed.
+
+(** "Addressed to the session": the selection predicate, declaratively - the packet went to no
+    room in particular or to a room of the session, and to no excluded room of the session. *)
+Theorem C08_addressed : forall rooms o,
+  should_include rooms o = true <->
+  (o_rooms o = [] \/ exists r, In r rooms /\ In r (o_rooms o)) /\
+  (forall r, In r rooms -> ~ In r (o_except o)).
+Proof. exact should_include_spec. Qed.
+
+(** Several sessions recovering from the same log: the results of the restores of session [p] are
+    the same in the history from which every persist / restore of other sessions is removed. *)
+Theorem C08_many_sessions : forall W p h,
+  results_for p h (snd (run W h st_empty)) =
+  results_for p (proj p h) (snd (run W (proj p h) st_empty)).
+Proof. exact many_sessions. Qed.
+
+(** A clean-up pass: with the log in emission-time order it removes exactly the expired packets;
+    and in any case no expired packet survives it. *)
+Theorem C08_cleaner_exact : forall W now l,
+  at_sorted l -> clean_packets W now l = filter (fun p => negb (pkt_expired W now p)) l.
+Proof. exact clean_packets_filter. Qed.
+
+Theorem C08_cleaner_collects : forall W now l p,
+  In p (clean_packets W now l) -> pkt_expired W now p = false.
+Proof. exact clean_packets_drops_expired. Qed.
+
+(** Non-vacuity: two broadcasts, a session (rooms 1 and 9) persisted, three more broadcasts, a
+    clean-up pass between the disconnection and the reconnection, restore with the first offset. *)
+Example C08_example :
+  let o := mkOpts [] [] in
+  let h := [(0, OBroadcast KEvent 1%N o); (0, OBroadcast KEvent 2%N (mkOpts [7%N] []));
+            (1, OPersist (mkSess 5%N 3%N [1%N; 9%N])); (2, OBroadcast KEvent 3%N (mkOpts [1%N] []));
+            (2, OBroadcast KEvent 4%N (mkOpts [] [9%N])); (3, OBroadcast KEvent 5%N o); (4, OClean)] in
+  option_map (fun r => option_map (fun x => map p_id (snd x)) r)
+             (snd (step 10 5 (ORestore 3%N 1%N) (final 10 h))) = Some (Some [3%N; 5%N]).
+Proof. vm_compute. reflexivity. Qed.
+
+(** The code before fix 8f03b0c (inverted HasExpired, one entry removed per pass), run through
+    the same machine: a pass between disconnect and reconnect drops the newest packet and the
+    restore still succeeds - a session reported recovered with a gap (id 2 is never replayed). *)
+Example C08_legacy_code_gap :
+  let o := mkOpts [] [] in
+  let h := [(0, OBroadcast KEvent 1%N o); (0, OBroadcast KEvent 2%N o); (0, OClean);
+            (0, OPersist (mkSess 1%N 3%N [])) ] in
+  option_map (fun r => option_map (fun x => map p_id (snd x)) r)
+             (snd (step_legacy 10 0 (ORestore 3%N 1%N) (fst (run_legacy 10 h st_empty)))) = Some (Some []).
+Proof. vm_compute. reflexivity. Qed.
